@@ -131,6 +131,10 @@ func forYAML(f *For) string {
 	if len(f.Matrix) > 0 {
 		var rows []string
 		for _, r := range f.Matrix {
+			if len(r) == 3 && r[1] == "@ref" { // a row that is a reference to a list variable
+				rows = append(rows, r[0]+": {ref: ."+r[2]+"}")
+				continue
+			}
 			var vs []string
 			for _, v := range r[1:] {
 				vs = append(vs, q(v))
@@ -190,6 +194,9 @@ func (f *For) Items(vars map[string]string) []string {
 	if len(mat) > 0 {
 		out := []string{""}
 		for _, r := range mat {
+			if len(r) == 3 && r[1] == "@ref" {
+				r = append([]string{r[0]}, strings.Fields(vars[r[2]])...)
+			}
 			var next []string
 			for _, p := range out {
 				for _, v := range r[1:] {
